@@ -76,11 +76,26 @@ static Verdict c14_check(const KV &c, Ctx &ctx) {
       bool must_grow = !s.data || s.size < 0 || (size_t)s.size < DS;
       g_re = {false, true, 0, s.data, s.size};
       size_t live_before = S.live.size();
-      S.begin();
+      // op 3: the allocation this call needs (if any) fails
+      bool inject = op == 3 && must_grow;
+      S.begin(inject ? 0 : -1);
       errno = 0;
       char *r = crypt_ra(REQ[ri][0], REQ[ri][1], &s.data, &s.size);
+      int err = errno;
       S.end();
       ctx.st.executed++;
+      if (inject) {
+        // "*data is afterwards either unchanged or a live block": a failed growth must leave the pair as it was
+        std::string st0 = "state (" + std::string(before ? "block" : "NULL") + ", " + std::to_string(size_before) + ")";
+        if (r) { v = "C14 crypt_ra returned a result although its allocation failed, from " + st0 + where(i); break; }
+        if (s.data != before) { v = "C14 after a failed allocation *data changed from " + std::string(before ? "the caller's block" : "NULL") + " to " + (s.data ? "another pointer" : "NULL") + " (the caller's block is lost) from " + st0 + where(i); break; }
+        if (s.size != size_before) { v = "C14 after a failed allocation *size changed from " + std::to_string(size_before) + " to " + std::to_string(s.size) + " although *data is unchanged, from " + st0 + where(i); break; }
+        if (before && S.live.find(before) == S.live.end()) { v = "C14 after a failed allocation the caller's block is no longer live" + where(i); break; }
+        if (S.live.size() != live_before) { v = "C14 a failed crypt_ra changed the number of live blocks" + where(i); break; }
+        if (err != ENOMEM) { v = "C14 crypt_ra reports errno " + std::to_string(err) + " after a failed allocation" + where(i); break; }
+        ctx.st.cls(std::string("c14-alloc-failure/") + (!before ? "null" : size_before < 0 ? "negative" : "undersized"));
+        continue;
+      }
       Bytes exp = expected_for(ri);
       bool exp_ok = exp[0] != '\x01';
       std::string st = "state (" + std::string(before ? "block" : "NULL") + ", " + std::to_string(size_before) + ")";
